@@ -478,6 +478,10 @@ def check_c08(rec):
             out.append(V('C08', 'presence-lost-but-server-%s' % s['state'],
                          '%s lost its presence node (master told at t in [%.3f, %.3f]) but is recorded %s' % (
                              sname, lost['t_lo'], lost['t_hi'], s['state'])))
+        elif s['since_lo'] is not None and lost.get('t_gone') is not None and s['since_lo'] < lost['t_gone'] - 1e-3:
+            # (the retention of its instances would end before it is due)
+            out.append(V('C08', 'down-since-earlier-than-presence-loss',
+                         '%s lost its presence at t=%.4f but is recorded down since %.4f' % (sname, lost['t_gone'], s['since_lo'])))
         elif s['since_hi'] is not None and s['since_hi'] > lost['t_hi'] + 1e-3:
             out.append(V('C08', 'down-since-later-than-presence-loss',
                          '%s lost its presence at t<=%.3f but is recorded down since %.3f' % (sname, lost['t_hi'], s['since_hi'])))
